@@ -42,6 +42,7 @@ ASSUMPTIONS = ['CPython 3.12 with the GIL: C-level dict operations on int/str/tu
                'histories are capped at 16 operations so the linearizability search stays exact']
 
 
+SELFTEST_MUTANT = 'nolock-setitem'
 REQUIRED_PROBES = ['lock_contended', 'switch_at_bytecode_inside_cacheutils', 'switch_inside_ring_splice',
                    'lockfree_read_saw_transient_state']
 
